@@ -503,6 +503,13 @@ impl World for MtWorld {
         if !self.active || !self.registered() || self.deadlock {
             return;
         }
+        // PTRACE_INTERRUPT races with the wake-up of a tracee the debugger has just resumed: with a
+        // signal pending, the kernel takes whichever it sees first (trap-stop or signal-delivery-
+        // stop). The simulator owns that race: the tracee has settled (asleep at its gate, or
+        // already in a stop) before the request is issued.
+        if req == seam::PTRACE_INTERRUPT && !self.quiesce() {
+            return;
+        }
         // the race the property talks about: a sibling runs while the debugger is busy stopping
         // or resuming the group
         if matches!(req, seam::PTRACE_INTERRUPT | seam::PTRACE_CONT | seam::PTRACE_SINGLESTEP) && self.p_race > 0 {
